@@ -35,6 +35,8 @@ func checkC08(c *Ctx) {
 	c.Rule("C08-R5", "every function storing currStyle merges ColorNone foreground and background from the old style")
 	c.Rule("C08-R6", "SetContent dirties every column covered by the old width before the width store")
 	c.Rule("C08-R7", "width is recomputed from the rune stored in currMain (RuneWidth of the same value) or copied together with it")
+	c.Rule("C08-R8", "Resize preserves the overlapping region: the copy of a surviving cell runs exactly for x below both widths and y below both heights")
+	c.Expect("C08-R8", 1)
 	c.Expect("C08-R1", 8)
 	c.Expect("C08-R2", 9)
 	c.Expect("C08-R3", 3)
@@ -62,6 +64,7 @@ func checkC08(c *Ctx) {
 	c08Wide(c, p, ms)
 	c08FillAll(c, p, ms)
 	c08Width(c, p, "C08-R7")
+	checkResizeBounds(c, p, "C08-R8")
 }
 
 func c08Bounds(c *Ctx, p *Prog, ms map[string]*ssa.Function) {
